@@ -443,7 +443,58 @@ def run(ctx):
         r_ = recs[idx]
         ctx.violation({"clause": why}, {"pattern": r_["pattern"], "tx": r_["tx"], "connected": r_["connected"],
                                         "min_gap": min(r_["gaps"]) if r_["gaps"] else None})
-    ev.cov["traces_validated_against_impl"] = len(behs) + n - len(bad)
+    # ---- the connection sequence as a whole (SyncConnect.tla): chain order, budgets, final connect, ping thread
+    from .. import syncconnect as sc
+    rsc = tlc.model_check("SyncConnect", "SyncConnect_mc.cfg", workers=4, timeout=300, tag="SyncConnect")
+    ctx.tlc_design("SyncConnect: request chain with budgets, final connect in two halves, ping thread and the connection timeout", rsc)
+    rw = tlc.model_check("SyncConnect", "SyncConnect_wit.cfg", workers=2, timeout=300, tag="SyncConnect-wit", coverage=False)
+    ev.add_tlc("witness (must be refuted): a connection that completes after the connection timeout has no ping thread", rw)
+    if "NeverConnectedWithoutPings" not in rw.violated:
+        raise env.MachineryError("SyncConnect witness not reached")
+    cs = sc.consts()
+    T = GeckoConfig.PROTOCOL_TIMEOUT_IN_SECONDS
+    lpats = [[0, 0, 0, 0], [N, 0, 0, 0], [0, N, 0, 0], [0, 0, N, 0], [0, 0, 0, N], [1, 1, 1, 1],
+             [8, 8, 0, 0],                    # slower than the connection timeout AND a ping period: connects without pings
+             [N + 1, 0, 0, 0], [2, N + 1, 0, 0], [0, 1, N + 1, 0]]      # a chain request's budget is spent
+    for _ in range(3 if ctx.quick else 60):
+        lpats.append([rng.randrange(0, N + 2) for _ in range(4)])
+    slogs = []
+    for lp in lpats:
+        horizon = min(380, (sum(min(x, N + 1) for x in lp)) * T + 70)
+        slogs.append(sc.connect_log(rng, lp, horizon))
+    cfgt = sc.CFG.format(R=cs["R"], CT=cs["CT"], maxage=400)
+    verd, _ = tlc.validate("SyncConnect_Trace", slogs, "c20-syncconnect", cfgt, chunk=4, heap="1500m", jobs=8)
+    n_sc_ok = 0
+    ping_only = []
+    redo = []
+    for lg, v in zip(slogs, verd):
+        if v["accepted"]:
+            n_sc_ok += 1
+        else:
+            redo.append(lg)
+    if redo:
+        # which part of the specification does the log leave: the chain / connection (C20's clause) or only the
+        # ping thread and error flag (outside C20: recorded, not a verdict)?
+        relaxed = [dict(lg, ev=[dict(e, chk=False) if e["k"] == "st" else e for e in lg["ev"]]) for lg in redo]
+        verd2, _ = tlc.validate("SyncConnect_Trace", relaxed, "c20-syncconnect-relaxed", cfgt, chunk=4, heap="1500m", jobs=8)
+        for lg, v2 in zip(redo, verd2):
+            if v2["accepted"]:
+                ping_only.append(lg["losses"])
+            else:
+                k = v2["matched"]
+                e = lg["ev"][k] if k < len(lg["ev"]) else {"k": "end"}
+                inv = [w for w in (v2["why"] or [])]
+                ctx.violation({"clause": "connection-sequence-" + (inv[0] if inv else ("request-out-of-turn-or-over-budget" if e.get("k") == "tx" else "state-not-reachable"))},
+                              {"losses": lg["losses"], "event": e, "before": lg["ev"][max(0, k - 6):k]})
+    for lg in slogs:
+        within = all(x <= N for x in lg["losses"])
+        if within and not (lg["final"]["connected"] and lg["final"]["ready"] and lg["identical"]):
+            ctx.violation({"clause": "handshake-not-completed-within-budget"}, {"losses": lg["losses"], "final": lg["final"]})
+    ev.cov["sync_connect_logs"] = len(slogs)
+    ev.cov["sync_connect_accepted"] = n_sc_ok
+    ev.cov["sync_connect_ping_thread_mismatch_outside_C20"] = ping_only
+    ev.cov["sync_connect_connected_without_pings"] = [lg["losses"] for lg in slogs if lg["final"]["connected"] and not lg["final"]["ping"]]
+    ev.cov["traces_validated_against_impl"] = len(behs) + n - len(bad) + n_sc_ok
     ev.cov["evaluations"] = steps + n
     ev.cov["distinct_nontrivial"] = len(distinct) + len({json.dumps(r_["pattern"], sort_keys=True) for r_ in recs})
     ev.cov["rule"] = "distinct simulated behaviours (by action sequence) + distinct handshake loss patterns"
